@@ -25,6 +25,11 @@ CHECKS = {
    text='Bounded exhaustive exploration of macrobody cards: every body kind with every orientation, handedness and parameterisation of a finite alphabet (full product) is converted with probe cells -b, +b, +b.k and -b.k for every facet; each emitted surface is identified with a facet of the reference solid as a polynomial, and the probe volumes are compared with the metric definition at complete plane-arrangement witnesses (all-plane bodies) or witnesses plus a lattice (curved bodies).',
    note='Trusted: macrobody definitions and facet numbering of the MCNP manual; ELL with positive last entry follows the empirical rule documented upstream; facets 3-6 of a 9-entry RHP are not probed.',
    tech='explicit enumeration of cards; polynomial identification of facets + complete arrangement witnesses'),
+
+ 'C04': dict(cat='model_checking', ref='4/C04',
+   text='Bounded exhaustive exploration of (object, rigid motion, card spelling): 16 object kinds x 2 displacements x 27 rotations (all 24 axis-permuting/flipping rotations plus three generic ones) for TRn on the surface card and for cell TRCL, and all spellings (12/13/3 entries, *TR, inline and starred TRCL, implicit surfaces referenced negatively, positively or both) over a 6-rotation subset; each emitted surface is identified as the image f(B(x-O)) of the reference polynomial and the probe volumes are compared on a lattice; abbreviated matrices (9/6/5/3 entries, J placeholders, rows or columns) are recovered from the written planes and must be proper rotations reproducing every supplied entry.',
+   note='Trusted: MCNP TR semantics (DESIGN 5). Rotations and displacements are covered at the alphabet values only.',
+   tech='explicit enumeration of objects x motions x spellings; polynomial identification of the moved surface + lattice sign comparison'),
 }
 NA_REASON = 'check not built yet in this build round (planned, see DESIGN.md section 4); no claim is made'
 
